@@ -121,15 +121,18 @@ def fastLinear (L : Layer K) : T23 K → Except String (T23 K)
   | .r3 [] => .error "err:index"
   | .r3 (x0 :: rest) => .ok (.r3 (List.replicate (rest.length + 1) (x0.map (affineRow L))))
 
-/-- `nn.Sequential(Linear, act, Linear, act, …, Linear)` as built by `_construct_FC_layers` /
-    `construct_FC_trunk_layers` -/
-def fcNet (lin : Layer K → T23 K → Except String (T23 K)) (act : K → K) :
-    List (Layer K) → T23 K → Except String (T23 K)
-  | [], _ => .error "err:nolayers"
-  | [l], x => lin l x
-  | l :: l' :: ls, x => do
+/-- `nn.Sequential(Linear, act₀, Linear, act₁, …, Linear)` as built by `_construct_FC_layers` /
+    `construct_FC_trunk_layers`: hidden layer `i` is followed by ITS OWN activation `acts[i]`
+    (a single activation object is first replicated `len(hidden)` times by the builders; a list that
+    is too short raises `IndexError`, surplus entries are ignored), the last layer by none. -/
+def fcNet (lin : Layer K → T23 K → Except String (T23 K)) :
+    List (K → K) → List (Layer K) → T23 K → Except String (T23 K)
+  | _, [], _ => .error "err:nolayers"
+  | _, [l], x => lin l x
+  | [], _ :: _ :: _, _ => .error "err:index"
+  | a :: acts, l :: l' :: ls, x => do
     let y ← lin l x
-    fcNet lin act (l' :: ls) (y.map (·.map act))
+    fcNet lin acts (l' :: ls) (y.map (·.map a))
 
 /-- `TrunkNet._reshape_multidimensional_output` followed by the `unsqueeze(0)` of `DeepONet.forward` -/
 def trunkReshape (d neurons : Nat) : T23 K → Except String (List (List (List (List K))))
@@ -145,15 +148,15 @@ def trunkReshape (d neurons : Nat) : T23 K → Except String (List (List (List (
       else .error "err:shape"
 
 /-- the whole `DeepONet.forward` for FC trunk and branch nets -/
-def forward (fast : Bool) (act : K → K) (d neurons : Nat)
+def forward (fast : Bool) (tacts bacts : List (K → K)) (d neurons : Nat)
     (trunk branch : List (Layer K)) (inputDim : Nat)
     (x : T23 K) (fnBatch : List (List (List K))) : Except String (List (List (List K))) := do
   let bin ← branchFlatten fnBatch inputDim
-  let bout ← fcNet plainLinear act branch (.r2 bin)
+  let bout ← fcNet plainLinear bacts branch (.r2 bin)
   let bfeat ← match bout with
     | .r2 rows => reshapeFeat d neurons rows
     | .r3 _ => .error "err:shape"
-  let tout ← fcNet (if fast then fastLinear else plainLinear) act trunk x
+  let tout ← fcNet (if fast then fastLinear else plainLinear) tacts trunk x
   let tfeat ← trunkReshape d neurons tout
   contract tfeat bfeat
 
@@ -229,22 +232,24 @@ section
 variable {K : Type} [Add K] [Mul K] [OfNat K 0]
 
 /-- forward pass of the trunk on ONE copy keeping the inputs of every layer (the tensors
-    `save_for_backward` keeps) and the activations -/
-def trunkTape (act : K → K) : List (Layer K) → List (List K) → List (List (List K) × List (List K))
-  | [], _ => []
-  | [l], x => [(x, x.map (affineRow l))]
-  | l :: l' :: ls, x =>
+    `save_for_backward` keeps) and the pre-activations; `acts[i]` follows layer `i` -/
+def trunkTape : List (K → K) → List (Layer K) → List (List K) → List (List (List K) × List (List K))
+  | _, [], _ => []
+  | _, [l], x => [(x, x.map (affineRow l))]
+  | [], _ :: _ :: _, _ => []
+  | a :: acts, l :: l' :: ls, x =>
     let z := x.map (affineRow l)
-    (x, z) :: trunkTape act (l' :: ls) (z.map (·.map act))
+    (x, z) :: trunkTape acts (l' :: ls) (z.map (·.map a))
 
 /-- reverse sweep with the coded formulas: returns (grad wrt input, per layer (gradW, gradb)),
-    `g : (copies, rows, out)` cotangent of the last layer's output, `dact z` = derivative of the
-    activation at pre-activation `z`.  Layers and tape are given in REVERSE order. -/
-def trunkSweep (dact : K → K) :
-    List (Layer K × (List (List K) × List (List K))) → List (List (List K)) →
+    `g : (copies, rows, out)` cotangent of the last layer's output.  Every entry carries its layer, the
+    DERIVATIVE of the activation that follows this layer (unused for the last layer) and its tape
+    entry; entries are given in REVERSE order. -/
+def trunkSweep :
+    List (Layer K × (K → K) × (List (List K) × List (List K))) → List (List (List K)) →
     List (List (List K)) × List (List (List K) × List K)
   | [], g => (g, [])
-  | (l, (x, _)) :: rest, g =>
+  | (l, _, (x, _)) :: rest, g =>
     let nout := l.W.length
     let nin := match l.W with | [] => 0 | w :: _ => w.length
     let gW := gradWeight nout nin x g
@@ -252,10 +257,10 @@ def trunkSweep (dact : K → K) :
     let gx := gradInput nin l.W g
     match rest with
     | [] => (gx, [(gW, gb)])
-    | (_, (_, zprev)) :: _ =>
+    | (_, dprev, (_, zprev)) :: _ =>
       -- through the activation of the previous layer: g * act'(z)
-      let gz := gx.map (fun gc => List.zipWith (fun gr zr => List.zipWith (fun a z => a * dact z) gr zr) gc zprev)
-      let (gin, grads) := trunkSweep dact rest gz
+      let gz := gx.map (fun gc => List.zipWith (fun gr zr => List.zipWith (fun a z => a * dprev z) gr zr) gc zprev)
+      let (gin, grads) := trunkSweep rest gz
       (gin, (gW, gb) :: grads)
 
 end
